@@ -22,6 +22,52 @@ SVC_TEST = "0000FF00" + UUID_BASE
 OP_SIG, OP_WRITE, OP_READ, OP_TIMED_WRITE, OP_EXEC_WRITE, OP_SERV_SIG, OP_CONFIG, OP_PROTO = 1, 2, 3, 4, 5, 6, 7, 8
 
 
+SERVICE_INSTANCE_ID = "E604E95D-A759-4817-87D3-AA005083A0D1"
+SERVICE_SIGNATURE = "000000A5" + UUID_BASE
+FMT_BYTE = {"bool": 0x01, "uint8": 0x04, "uint16": 0x06, "uint32": 0x08, "uint64": 0x0A, "int": 0x10, "float": 0x14, "string": 0x19, "data": 0x1B, "tlv8": 0x1B}
+FMT_CODE = {"uint8": "B", "uint16": "H", "uint32": "I", "uint64": "Q", "int": "i", "float": "f"}
+PERM_BITS = {"pr": 0x0010, "pw": 0x0020, "aa": 0x0004, "tw": 0x0008, "hd": 0x0040, "ev": 0x0080}
+
+
+def uuid_le(u):
+    import uuid as _uuid
+    return _uuid.UUID(u).bytes[::-1]
+
+
+def signature_items(c, iid, service_iid, service_uuid):
+    """HAP-BLE characteristic signature (7.3.4.x) of a characteristic declared as dict(uuid, format, perms, min, max, step, broadcast, disconnected)."""
+    fmt = c.get("format", "data")
+    props = 0
+    for p_ in c.get("perms", ["pr", "pw"]):
+        props |= PERM_BITS.get(p_, 0)
+    if c.get("disconnected"):
+        props |= 0x0100
+    if c.get("broadcast"):
+        props |= 0x0200
+    items = [(0x04, uuid_le(c["uuid"])), (0x07, struct.pack("<H", service_iid)), (0x06, uuid_le(service_uuid)), (0x0A, struct.pack("<H", props)),
+             (0x0C, struct.pack("<BbHBH", FMT_BYTE[fmt], 0, c.get("unit", 0x2700), 1, 0))]
+    code = FMT_CODE.get(fmt)
+    if code and c.get("min") is not None and c.get("max") is not None:
+        items.append((0x0D, struct.pack("<" + code * 2, c["min"], c["max"])))
+    if code and c.get("step") is not None:
+        items.append((0x0E, struct.pack("<" + code, c["step"])))
+    return items
+
+
+class GattService:
+    def __init__(self, uuid, iid, characteristics):
+        self.uuid, self.iid, self.characteristics = uuid, iid, characteristics
+
+    def get_characteristic(self, uuid):
+        for ch in self.characteristics:
+            if ch.uuid.lower() == str(uuid).lower():
+                return ch
+        return None
+
+    def __repr__(self):
+        return f"GattService({self.uuid[:8]}, iid={self.iid})"
+
+
 class GattChar:
     max_write_without_response_size = 0         # what bleak reports for the handle (0: unknown)
 
@@ -47,6 +93,9 @@ class RefBleAccessory:
                         GattChar(CH_PAIR_SETUP, 2, SVC_PAIRING, "setup"), GattChar(CH_PAIRING_FEATURES, 5, SVC_PAIRING, "features")]
         for iid, c in chars.items():
             self.handles.append(GattChar(c["uuid"], iid, c.get("service", SVC_TEST)))
+        self.service_iids = {SVC_PAIRING: 1, SVC_TEST: 8}      # GATT database: service uuid -> instance id
+        self.service_linked = {}                # service uuid -> list of linked service instance ids
+        self.service_props = {}                 # service uuid -> HAP service properties (1 primary, 2 hidden, 4 configurable)
         self.session = None                     # dict(c2a, a2c) keys
         self.c2a = self.a2c = 0
         self.rx = {}
@@ -176,6 +225,18 @@ class RefBleAccessory:
 
     # ---- request handling
     def handle(self, h, op, iid, body):
+        if op == OP_SERV_SIG:
+            svc = next((u for u, i_ in self.service_iids.items() if i_ == iid), None)
+            if svc is None:
+                return 4, b""
+            items = [(0x0F, struct.pack("<H", self.service_props.get(svc, 0)))]
+            linked = self.service_linked.get(svc)
+            if linked is not None:
+                items.append((0x10, b"".join(struct.pack("<H", x) for x in linked)))
+            return 0, tlv_enc(items)
+        if op == OP_SIG and h.kind in ("verify", "pairings", "setup", "features", "svc-sig"):
+            decl = {"uuid": h.uuid, "format": "uint8" if h.kind == "features" else "data", "perms": ["pr"] if h.kind in ("features", "svc-sig") else ["pr", "pw"]}
+            return 0, tlv_enc(signature_items(decl, h.iid, self.service_iids.get(h.service_uuid, 0), h.service_uuid))
         if h.kind == "verify":
             return self.pair_verify(body)
         if h.kind == "pairings":
@@ -196,6 +257,9 @@ class RefBleAccessory:
         c = self.chars.get(iid)
         if c is None:
             return 4, b""
+        if op == OP_SIG:
+            svc = c.get("service", SVC_TEST)
+            return 0, tlv_enc(c["signature"] if "signature" in c else signature_items(c, iid, self.service_iids.get(svc, 0), svc))
         if op == OP_WRITE:
             d = dict(tlv_dec(body))
             st = c.get("write_status", 0)
@@ -320,10 +384,10 @@ class FakeBleClient:
         self.gatt_error_at = None     # raise BleakError at the n-th GATT operation from now
         self.disconnect_delay = 0.0
         self.disconnect_fails = False
+        self._extra = {}
         self.oversize = []
         self.ops = 0
         self.notify = {}
-        self.services = None
         acc.reset_link()
 
     def _maybe_fail(self):
@@ -333,6 +397,32 @@ class FakeBleClient:
             raise BleakError("simulated GATT error")
         if not self.is_connected:
             raise BleakError("simulated: not connected")
+
+    @property
+    def services(self):
+        """The GATT table as bleak presents it: per service its characteristics plus the Service Instance ID and Service Signature ones."""
+        out = []
+        for svc_uuid, svc_iid in self.acc.service_iids.items():
+            chars = [h for h in self.acc.handles if h.service_uuid.lower() == svc_uuid.lower()]
+            extra = self._extra.get(svc_uuid)
+            if extra is None:
+                sid = GattChar(SERVICE_INSTANCE_ID, None, svc_uuid, "svc-iid")
+                sid.handle = 10000 + svc_iid
+                sid.value = struct.pack("<H", svc_iid)
+                sig = GattChar(SERVICE_SIGNATURE, 0x7000 + svc_iid, svc_uuid, "svc-sig")
+                extra = self._extra[svc_uuid] = [sid, sig]
+                self.acc.handles.extend(x for x in extra if x.iid is not None and not any(y.iid == x.iid for y in self.acc.handles))
+            out.append(GattService(svc_uuid, svc_iid, [extra[0]] + [c for c in chars if c.kind != "svc-sig"] + [extra[1]]))
+        return out
+
+    def _by_handle(self, h):
+        if isinstance(h, int):
+            for svc in self.services:
+                for ch in svc.characteristics:
+                    if ch.handle == h:
+                        return ch
+            raise BleakError(f"fake client: no characteristic with handle {h}")
+        return h
 
     async def get_characteristic(self, service_uuid, char_uuid, iid=None):
         cands = [h for h in self.acc.handles if h.uuid.lower() == char_uuid.lower() and h.service_uuid.lower() == service_uuid.lower()]
@@ -372,6 +462,9 @@ class FakeBleClient:
     async def read_gatt_char(self, h):
         await asyncio.sleep(0)
         self._maybe_fail()
+        h = self._by_handle(h)
+        if h.kind == "svc-iid":
+            return bytearray(h.value)
         d = self.acc.on_read(h)
         self.acc.after_response_read(h)
         self.log.append(("r", h.iid, d))
